@@ -151,6 +151,10 @@ class FDPE(Interp):
             raise AnalysisError(f"anchor vanished: {self.rel}::{qual}")
         return self.call_function(fn, list(args), {}, qual, "." in qual, rel=self.rel)
 
+    def fresh_sym(self, name):
+        self._nsym = getattr(self, "_nsym", 0) + 1
+        return f"{name}#{self._nsym}"
+
     def ask(self, q):
         if q not in self.asked:
             self.asked.append(q)
@@ -478,8 +482,8 @@ class FDPE(Interp):
         if not isinstance(st.target, ast.Name) or st.orelse:
             raise Unsupported("loop shape over a symbolic range")
         before = {k: (v, len(v)) for k, v in env.items() if isinstance(v, list)}
-        var = st.target.id
-        env[var] = Sym(("sym", var))
+        var = self.fresh_sym(st.target.id)
+        env[st.target.id] = Sym(("sym", var))
         self.symloops.append((var, it.t))
         try:
             r = self.exec_block(st.body, env)
@@ -510,8 +514,9 @@ class FDPE(Interp):
                 if g.ifs or not isinstance(g.target, ast.Name):
                     raise Unsupported("comprehension shape over a symbolic range")
                 sub = dict(env)
-                sub[g.target.id] = Sym(("sym", g.target.id))
-                return Sym(("list", g.target.id, it.t, to_term(self.ev(node.elt, sub))))
+                var = self.fresh_sym(g.target.id)
+                sub[g.target.id] = Sym(("sym", var))
+                return Sym(("list", var, it.t, to_term(self.ev(node.elt, sub))))
         return super().ev_ListComp(node, env)
 
     ev_GeneratorExp = ev_ListComp
@@ -530,6 +535,8 @@ class FDPE(Interp):
     def dispatch_call(self, node, fsrc, args, kwargs, env):
         if fsrc in ("print", "warnings.warn"):
             return None
+        if fsrc.startswith(("collections.", "itertools.", "functools.", "operator.")):
+            return super().dispatch_call(node, fsrc, args, kwargs, env)
         if fsrc in self.call_overrides:
             return self.call_overrides[fsrc](args, kwargs)
         if fsrc.startswith("self.") and fsrc.count(".") == 1:
@@ -658,6 +665,12 @@ class FDPE(Interp):
         return Sym(("call", ("global", "np." + name), tuple(t) + extra))
 
     def builtin(self, name, args, kwargs, node):
+        if name == "map" and len(args) == 2 and isinstance(args[1], Sym):
+            var = self.fresh_sym("k")
+            return Sym(("list", var, args[1].t,
+                        to_term(self.apply(args[0], [Sym(("sym", var))], node))))
+        if name in ("list", "tuple") and len(args) == 1 and isinstance(args[0], Sym):
+            return args[0]
         if name in ("float", "int") and args and isinstance(args[0], (int, Fraction)):
             v = Fraction(args[0])
             return int(v) if name == "int" else args[0]
